@@ -1,9 +1,9 @@
 SPECIFICATION TableSpec
 CONSTANTS
  BNErrs = {"bnval", "bnptr"}
- Variant = "count_dups"
- MCTypes = {"attester"}
- MCMain = "attester"
+ Variant = "coded"
+ MCTypes = {"sync_contribution", "prepare_sync_contribution", "sync_message"}
+ MCMain = "sync_contribution"
  MCIncl = {"proposer"}
  MCPKs = {"a", "b"}
  MCErrs = {"nil", "other"}
